@@ -23,7 +23,7 @@ func zz06Count(s SingleCommits, c *SingleCommit) int {
 //
 //zz:opt loop=16 require=end
 //zz:quick G=1 M=2 L=3
-//zz:thorough G=2 M=3 L=4
+//zz:thorough G=2 M=2 L=4 budget=1200s
 func zzH_C06_pool_select_upgrade_cleanup(t *zzT) {
 	g := t.Range("gossiped", 0, t.Param("G", 1))
 	m := t.Range("nonGossiped", 0, t.Param("M", 2))
